@@ -129,7 +129,13 @@ class FnUninit:
                   "getelementptr", "ret", "sitofp", "uitofp", "fptoui", "fptosi"}
         for i in fn.insts():
             if i.op in STRICT and any(o["k"] == "undef" for o in i.ops): self.undef_uses.append(i)
-            elif i.op == "store" and i.ops[0]["k"] == "undef": self.undef_uses.append(i)
+            elif i.op == "store" and i.ops[0]["k"] == "undef":
+                # the padding bytes of a struct that SROA copies piecewise (fields as values, the gap as undef): not a use of a local
+                def base_of(o, d=0):
+                    while o["k"] == "inst" and d < 6 and fn.imap[o["v"]].op in ("bitcast", "getelementptr"): o = fn.imap[o["v"]].ops[0]; d += 1
+                    return (o["k"], o.get("v"))
+                sib = [j for j in i.block.insts if j is not i and j.op == "store" and j.ops[0]["k"] != "undef" and j.line == i.line and base_of(j.ops[1]) == base_of(i.ops[1])]
+                if not sib: self.undef_uses.append(i)
             elif i.op == "call" and not (i.get("callee") or "").startswith("llvm.") and any(o["k"] == "undef" for o in i.ops[:i["nargs"]]): self.undef_uses.append(i)
 
     def collect(self):
@@ -379,14 +385,36 @@ class FnUninit:
         for (t, st, b) in self.ret_states:
             cases = []
             v = t.ops[0] if t.ops else None
-            if v is not None and v["k"] == "inst" and self.fn.imap[v["v"]].op == "phi" and self.fn.imap[v["v"]].block is b and all(x.op in ("phi", "ret", "bitcast", "zext", "trunc") for x in b.insts):
-                phi = self.fn.imap[v["v"]]
+            def state_via(dead2):
+                """must-write state at this return over the paths that avoid the edges in dead2 (one way of choosing the returned value)"""
+                saved = (self.dead, self.IN, self.OUT, self.ret_states, defaultdict(int, self.exposed), dict(self.exposed_site))
+                try:
+                    self.dead = dead2; self.run()
+                    return next((st2 for (t2, st2, b2) in self.ret_states if t2 is t), None)
+                finally:
+                    self.dead, self.IN, self.OUT, self.ret_states, self.exposed, self.exposed_site = saved
+            def phi_cases(val, blk, dead1, depth=0):
+                """(return class, must-write state) per way the returned value was chosen.  The value is a phi merged at or before the
+                return (single-exit style: `result` set before a `done:` label, clean-up and metadata fill, return).  Each class is the
+                function restricted to the paths through its own edge into the merge: what it writes before and after the merge counts."""
+                if val["k"] != "inst" or depth > 3: return None
+                phi = self.fn.imap[val["v"]]
+                if phi.op != "phi" or phi.block.id in self.fn.loops() or not self.fn.dominates(phi.block.id, blk.id): return None
+                out = []
                 for inc in phi["incoming"]:
                     p = self.fn.bmap[inc["b"]]
-                    if p.id not in self.OUT or (p.id, b.id) in self.dead: continue
+                    if p.id not in self.OUT or (p.id, phi.block.id) in self.dead: continue
+                    dead2 = set(dead1) | {(q.id, phi.block.id) for q in phi.block.preds if q.id != p.id}
                     iv = inc["v"]
-                    rc = int(iv["sv"]) if iv["k"] == "int" else (0 if iv["k"] == "null" else None)
-                    cases.append((rc, self.edge(p, b, self.OUT[p.id])))
+                    inner = None if iv["k"] in ("int", "null") else phi_cases(iv, p, dead2, depth + 1)
+                    if inner is not None: out += inner; continue
+                    es = state_via(dead2)
+                    if es is None: continue
+                    out.append(((int(iv["sv"]) if iv["k"] == "int" else 0) if iv["k"] in ("int", "null") else None, es))
+                return out
+            pc = phi_cases(v, b, self.dead) if v is not None else None
+            if pc is not None and any(rc is not None for rc, _ in pc):
+                cases = pc
             else:
                 cases.append((self.ret_const(t), st))
             cases = self.expand_call_classes(cases, v if not cases or len(cases) == 1 else None, b)
